@@ -4,7 +4,9 @@ package c01
 // concurrent callers in the gateway: allocator.IPAllocator ("Thread-safe for concurrent use"),
 // allocator.DistributedAllocator (own mutex; watch callbacks and the epoch loop run beside callers),
 // dhcp.Pool (server4 runs one goroutine per packet), pool.PeerPool (DHCP handlers + peer HTTP handlers).
-// pppoe.IPPool, the dhcpv6 pools and PoolAllocator have single-goroutine callers and are excluded.
+// pppoe.IPPool, the dhcpv6 pools and PoolAllocator are not part of THIS stress test (their in-tree callers are
+// single loops). The schedules the harness owns - a store write held back while other calls run - are in
+// parked_test.go (DistributedAllocator session+lease, PoolAllocator; for the latter see KF-C01-8).
 //
 // Real goroutines, real parallelism: this is stress, not schedule enumeration.
 
